@@ -457,10 +457,23 @@ pub fn execute(plan: &Plan) -> Exec {
                     floor = 0;
                     // a backup of the directory as the crash left it
                     let mut pending: Option<(BackupMetadata, Option<String>)> = None;
+                    let mut pending_parent: Option<usize> = None;
                     if *cold_backup {
                         if let Ok(bm) = BackupManager::new(&bk, &data) {
-                            match catch_unwind(AssertUnwindSafe(|| bm.create_full_backup(format!("cold full #{}", backups.len())))) {
-                                Ok(Ok(meta)) => pending = Some((meta, manifest_snapshot(&data))),
+                            // odd distances: an incremental on the latest backup instead of a full one
+                            let incr_on = if *back % 2 == 1 && !backups.is_empty() { Some(backups.len() - 1) } else { None };
+                            let made = match incr_on {
+                                Some(pi) => {
+                                    let pid = backups[pi].meta.id;
+                                    catch_unwind(AssertUnwindSafe(|| bm.create_incremental_backup(pid, format!("cold incr #{} on #{}", backups.len(), pi))))
+                                }
+                                None => catch_unwind(AssertUnwindSafe(|| bm.create_full_backup(format!("cold full #{}", backups.len())))),
+                            };
+                            match made {
+                                Ok(Ok(meta)) => {
+                                    pending_parent = incr_on;
+                                    pending = Some((meta, manifest_snapshot(&data)))
+                                }
                                 Ok(Err(_)) => pr(&mut ex, "backup_of_crashed_directory_refused"),
                                 Err(_) => {
                                     ex.problems.push(prob("backup_panicked", "create_full_backup on a directory left by a crash panicked".into(), &[("backup", "full_of_crashed_directory")]));
@@ -476,8 +489,8 @@ pub fn execute(plan: &Plan) -> Exec {
                                 let expected = census(e2.backend(), p.universe);
                                 digest = crate::rng::mix(digest, (expected.docs.len() as u64 + 1) << 16);
                                 activity.insert(backups.len(), (false, true, 0));
-                                backups.push(BkRec { meta, manifest_snapshot: ms, expected, expected_alt: None, parent: None, snapshot_since_parent: snap_since, restart_since_parent: true, writes_since_parent: writes_since });
-                                pr(&mut ex, "full_backups_of_crashed_directory");
+                                backups.push(BkRec { meta, manifest_snapshot: ms, expected, expected_alt: None, parent: pending_parent, snapshot_since_parent: snap_since, restart_since_parent: true, writes_since_parent: writes_since });
+                                pr(&mut ex, if pending_parent.is_some() { "incremental_backups_of_crashed_directory" } else { "full_backups_of_crashed_directory" });
                             }
                             eng = Some(e2);
                         }
